@@ -57,12 +57,23 @@ class _Server:
             return pickle.load(cls.proc.stdout)
         except (EOFError, BrokenPipeError, pickle.UnpicklingError, OSError):
             cls.crashes += 1
-            try:
-                cls.proc.kill()
-            except Exception:  # noqa: BLE001
-                pass
-            cls.proc = None
+            cls._kill()
             return ("crash", "onnxruntime process died (signal) on this model/input")
+        except BaseException:
+            # e.g. the per-case watchdog fired in the middle of a request: the reply would be read by the NEXT request.
+            # Kill the server so that request/response can never get out of step.
+            cls._kill()
+            raise
+
+    @classmethod
+    def _kill(cls):
+        try:
+            if cls.proc is not None:
+                cls.proc.kill()
+                cls.proc.wait(timeout=5)
+        except Exception:  # noqa: BLE001
+            pass
+        cls.proc = None
 
 
 class RemoteSession:
